@@ -320,12 +320,17 @@ def hermitian_mpo_from(desc):
 def charge_vectors(draw, mmax=12, nmax=12):
     m = draw(st.integers(1, mmax))
     n = draw(st.integers(1, nmax))
-    kind = draw(st.sampled_from(['small', 'small', 'small', 'const', 'large', 'disjoint', 'pairs']))
+    kind = draw(st.sampled_from(['small', 'small', 'small', 'const', 'large', 'disjoint', 'pairs', 'huge']))
     if kind == 'const':
         c = draw(st.integers(-3, 3))
         q0 = [c] * m; q1 = [c] * n
     elif kind == 'large':
         pool = draw(st.lists(st.integers(-2**20, 2**20), min_size=1, max_size=4))
+        q0 = draw(st.lists(st.sampled_from(pool), min_size=m, max_size=m))
+        q1 = draw(st.lists(st.sampled_from(pool), min_size=n, max_size=n))
+    elif kind == 'huge':
+        # charges beyond 2^53, where float64 no longer resolves neighbouring integers (int64 arithmetic is exact; sums stay below 2^63)
+        pool = [2**60, 2**60 + 1, 2**60 - 1, -(2**61), -(2**61) + 1]
         q0 = draw(st.lists(st.sampled_from(pool), min_size=m, max_size=m))
         q1 = draw(st.lists(st.sampled_from(pool), min_size=n, max_size=n))
     elif kind == 'disjoint':
